@@ -4,7 +4,7 @@
    g_fixed cfg = false is the pinned snapshot, kept for the refutation witnesses. *)
 From Coq Require Import NArith List Bool.
 From ZV.Codec Require Import Bytes Block.
-From ZV.Seq Require Import SeqApi SeqSpec SeqProofs SeqTranscribe SeqMinLen SeqExec SeqProducer SeqProducerFrame.
+From ZV.Seq Require Import SeqApi SeqSpec SeqProofs SeqTranscribe SeqMinLen SeqExec SeqProducer SeqProducerFrame SeqFallback.
 Import ListNotations.
 Local Open Scope N_scope.
 
@@ -337,3 +337,53 @@ Theorem C17_stale_third_repcode_breaks_lockstep :
   ob = 3 /\ resolve_offset ob 1 dec = Ok (37, (37, 150, 64)) /\ resolve_offset ob 1 enc = Ok (5, (5, 150, 64)).
 Proof. exact stale_third_repcode_breaks_lockstep. Qed.
 Print Assumptions C17_stale_third_repcode_breaks_lockstep.
+
+(* ---- round 3: blocks that fall back to the internal parser inside a producer frame (coq/Seq/SeqFallback.v) ----
+   producer_frame_fb fbfix atpos: the block loop of round 2 extended with the fallback branch of ZSTD_buildSeqStore.  What the
+   internal parser stores is an input (a function of the history the block starts from); the history kept after such a block is
+   modelled: fbfix = true rebuilds it from the seqStore with ZSTD_updateRep (the code since fix: a9c9307), fbfix = false keeps the
+   parser's two repeat offsets and the stale third entry (the code before it, strategies below btopt). *)
+(* the rebuilt history is the history of a decoder that decoded the block *)
+Theorem C17_fallback_history_is_decoder_history : forall seqs rep offs rd,
+  rep_ok rep -> codes_ok seqs ->
+  decode_offsets rep seqs = Ok (offs, rd) -> fallback_history rep seqs = rd /\ rep_ok rd.
+Proof. exact fallback_history_is_decoder. Qed.
+Print Assumptions C17_fallback_history_is_decoder_history.
+(* the whole frame stays in lock-step with the decoder, fallback blocks included: every list of producer answers, every
+   internal-parser output with decodable codes (parser_ok), every start history, every list of commit decisions, validation on
+   or off, both positions *)
+Theorem C17_producer_frame_fallback_lockstep : forall atpos cfg ers fb calls rep pos dec blks,
+  calls_off_ok (xcalls calls) -> Forall (fun cx => parser_ok (px_parser cx)) calls -> rep_ok rep ->
+  producer_frame_fb true atpos cfg ers fb calls rep pos dec = Done blks ->
+  blocks_lockstep rep dec blks /\ map b_size blks = map pc_size (xcalls calls).
+Proof. exact producer_frame_fb_lockstep. Qed.
+Print Assumptions C17_producer_frame_fallback_lockstep.
+(* hypotheses satisfiable, conclusion not vacuous: a three-block frame producer / fallback / producer is accepted *)
+Theorem C17_producer_frame_fallback_example :
+  calls_off_ok (xcalls w3_calls) /\ Forall (fun cx => parser_ok (px_parser cx)) w3_calls /\ rep_ok (1, 4, 8) /\
+  exists blks, producer_frame_fb true true fcfg true true w3_calls (1, 4, 8) 0 [] = Done blks /\ length blks = 3%nat.
+Proof. exact producer_frame_fb_example. Qed.
+Print Assumptions C17_producer_frame_fallback_example.
+(* with the fallback switched off the extended loop is the loop of round 2 (theorems 20-23 carry over) *)
+Theorem C17_producer_frame_fb_without_fallback : forall fbfix atpos cfg ers calls rep pos dec,
+  producer_frame_fb fbfix atpos cfg ers false calls rep pos dec = producer_frame atpos cfg ers false (xcalls calls) rep pos dec.
+Proof. exact producer_frame_fb_no_fallback. Qed.
+Print Assumptions C17_producer_frame_fb_without_fallback.
+(* no out-of-bounds outcome whatever the producer writes or returns and whatever the internal parser stores *)
+Theorem C17_producer_frame_fallback_memory_safe : forall fbfix cfg ers fb calls rep pos dec,
+  g_fixed cfg = true -> g_validate cfg = true -> g_wlog cfg <= 31 -> pos + calls_total (xcalls calls) + g_dict cfg + 3 < M32 ->
+  Forall (fun c => (N.to_nat (pc_nb c) <= length (pc_buf c))%nat \/ pc_cap c < pc_nb c) (xcalls calls) ->
+  not_oob (producer_frame_fb fbfix true cfg ers fb calls rep pos dec).
+Proof. exact producer_frame_fb_memory_safe. Qed.
+Print Assumptions C17_producer_frame_fallback_memory_safe.
+(* finding C17-producer-fallback-stale-third-repcode at frame level (closed terms): producer block leaving (64, 37, 5), block
+   falling back to the fast parser ({ll 150, ml 874, offset 150}), producer block {off 5, ll 4, ml 40}: the code before a9c9307
+   stores repeat code 3 and the frame is NOT in lock-step (the decoder resolves 37); the code since stores the explicit offset
+   and the frame is in lock-step *)
+Theorem C17_fallback_stale_history_frame_refuted :
+  (exists blks, producer_frame_fb false true fcfg true true w3_calls (1, 4, 8) 0 [] = Done blks /\
+                map (fun b => map t_ob (b_seqs b)) blks = [[8; 40; 67]; [153]; [3]] /\ ~ blocks_lockstep (1, 4, 8) [] blks) /\
+  (exists blks, producer_frame_fb true true fcfg true true w3_calls (1, 4, 8) 0 [] = Done blks /\
+                map (fun b => map t_ob (b_seqs b)) blks = [[8; 40; 67]; [153]; [8]] /\ blocks_lockstep (1, 4, 8) [] blks).
+Proof. exact fallback_stale_history_frame_refuted. Qed.
+Print Assumptions C17_fallback_stale_history_frame_refuted.
